@@ -123,6 +123,8 @@ class Enum:
         self.variant = variant
         self.f = tuple(f)
         self.discr = discr
+        if variant is None and discr is None:
+            raise AssertionError('enum %s without variant and discriminant' % ty)
 
     def __repr__(self):
         if self.variant is None:
@@ -361,10 +363,12 @@ def ite_value(c, a, b):
     if ta is Enum:
         if a.ty != b.ty:
             raise Unmergeable('enum type')
+        if a.ty == 'Option' and (a.variant != b.variant or a.variant is None):
+            return merge_options(c, a, b)
         if a.variant is not None and a.variant == b.variant:
             if len(a.f) != len(b.f):
                 raise Unmergeable('enum arity')
-            return Enum(a.ty, a.variant, [ite_value(c, x, y) for x, y in zip(a.f, b.f)])
+            return Enum(a.ty, a.variant, [ite_value(c, x, y) for x, y in zip(a.f, b.f)], discr=a.discr)
         if not a.f and not b.f:
             da, db = enum_discr_bv(a), enum_discr_bv(b)
             if da is not None and db is not None:
@@ -404,6 +408,44 @@ def ite_value(c, a, b):
 ENUM_DEFS = {}      # filled by Program: enum name -> {variant: discr}
 
 
+def opt_discr(o):
+    """64-bit discriminant term of an Option value (0 = None, 1 = Some)"""
+    if o.variant == 'None':
+        return z3.BitVecVal(0, 64)
+    if o.variant == 'Some':
+        return z3.BitVecVal(1, 64)
+    return o.discr
+
+
+def merge_options(c, a, b):
+    """c ? a : b for Options of differing / symbolic variants: an Option with a symbolic discriminant carrying the
+    payload of whichever side is Some."""
+    pa = a.f[0] if a.f else None
+    pb = b.f[0] if b.f else None
+    if pa is None and pb is None:
+        return a if a.variant == 'None' else Enum('Option', None, (), discr=z3.If(c, opt_discr(a), opt_discr(b)))
+    if pa is None:
+        payload = pb
+    elif pb is None:
+        payload = pa
+    else:
+        payload = ite_value(c, pa, pb)
+    d = z3.simplify(z3.If(c, opt_discr(a), opt_discr(b)))
+    if z3.is_bv_value(d):
+        return Enum('Option', 'Some', (payload,)) if d.as_long() == 1 else Enum('Option', 'None', ())
+    return Enum('Option', None, (payload,), discr=d)
+
+
+def split_option(o):
+    """[(cond, concrete Option)] for an Option with symbolic discriminant"""
+    if o.variant is not None:
+        return [(True, o)]
+    out = [(o.discr == z3.BitVecVal(0, 64), Enum('Option', 'None', ()))]
+    if o.f:
+        out.append((o.discr == z3.BitVecVal(1, 64), Enum('Option', 'Some', (o.f[0],))))
+    return out
+
+
 def enum_discr_bv(e):
     if e.variant is None:
         return e.discr
@@ -434,6 +476,8 @@ def shape_sig(v, depth=0):
     """Cheap shape signature used to group states before merging."""
     t = type(v)
     if t is Enum:
+        if v.ty == 'Option':
+            return ('E', 'Option')
         if not v.f:
             return ('E', v.ty)
         return ('E', v.ty, v.variant, tuple(shape_sig(x, depth + 1) for x in v.f))
